@@ -150,7 +150,9 @@ func c22case(ctx *hlib.Ctx, conf c22conf, pool []c22node, sets []c22set, keys []
 		scs := make([]string, len(pool))
 		nan := false
 		for i := range pool {
-			c, isnan := c22code(rhPool.Nodes[i].Score(k))
+			// a free-standing node: independent of where AddNode puts nodes in rh.Nodes
+			pn := &hrw.RendezvousHashNode{RHash: rhPool, Label: pool[i].label, Weight: pool[i].weight}
+			c, isnan := c22code(pn.Score(k))
 			nan = nan || isnan
 			codes[i] = c
 			scs[i] = fmt.Sprintf("0x%x", c)
@@ -339,15 +341,21 @@ func c22(ctx *hlib.Ctx) {
 		var keys []string
 		kind := ""
 		full := true
+		shardBlocks := 6
+		if thorough {
+			shardBlocks = 8
+		}
+		light := false
 		switch m := i % 10; {
-		case m < 6: // the exhaustive shard space (all of it in thorough), light blocks
+		case m < shardBlocks: // the shard space (all of it in thorough); mostly light blocks
 			kind = "shard-keys"
 			full = m == 0
+			light = !full
 			for j := 0; j < K; j++ {
 				keys = append(keys, fmt.Sprintf("%04x", (shardOff+shardNext*shardStride)%65536))
 				shardNext++
 			}
-		case m == 6:
+		case m == shardBlocks && (!thorough || (i/10)%2 == 0):
 			kind = "upper-2hex-keys"
 			for j := 0; j < K; j++ {
 				keys = append(keys, fmt.Sprintf("%02X", upperNext%256))
@@ -377,6 +385,9 @@ func c22(ctx *hlib.Ctx) {
 		p := rr.Range(1, 10)
 		if rr.Chance(8) {
 			p = rr.Range(13, 15)
+		}
+		if light && thorough {
+			p = rr.Range(1, 6) // keeps the exhaustive sweep affordable
 		}
 		wkind := rr.Intn(3)
 		pool := c22pool(rr, p, wkind)
